@@ -58,6 +58,8 @@ def make_manager_class():
             mw = self.mw
             t = asyncio.current_task()
             rec = {"api": "async_reset", "t0": mw.w.now, "seq0": mw.next_seq(), "task": t.get_name() if t else None, "before": self._sample(), "t1": None, "exc": None}
+            # connection endpoints open when the reset starts (C10: all closed once it is over)
+            rec["conn_endpoints_before"] = [tr for tr in mw.w.loop.transports if not tr.closed and not tr.kw.get("allow_broadcast")]
             mw.api.append(rec)
             try:
                 return await super().async_reset()
